@@ -627,8 +627,8 @@ def file_replaced_whole(ctx, b):
         for e in p.events:
             if e.kind != "call":
                 continue
-            if e.a.endswith("fs::File::create"):
-                n += 1
+            if e.a.endswith("fs::File::create") or e.a in ("std::fs::write",) or e.a.endswith("::fs::write"):
+                n += 1      # File::create truncates; fs::write(path, bytes) replaces the whole contents
                 continue
             if mir.method_name(e.a) == "open" and "OpenOptions" in e.a:
                 n += 1
